@@ -1,7 +1,7 @@
 (* Model/C02Run.v - case type and checker evaluated on harness-generated cases (C02).
    One case = one exchange of the REAL client (req.C().R()...) with a scripted peer; the
    observation is what the caller saw through the public API. *)
-From ReqV Require Export Lib.Bytes Lib.ByteLit Model.H1Resp Model.RespAPI Model.H1Client Model.MuxResp.
+From ReqV Require Export Lib.Bytes Lib.ByteLit Model.H1Resp Model.RespAPI Model.H1Client Model.MuxResp Model.H1Fast.
 
 (* Go maps are unordered: compare as multimaps key by key *)
 Definition hmap_eqb (a b : hmap) : bool :=
@@ -136,7 +136,7 @@ Definition c02_check (c : c02_case) : bool :=
       let wire := expand_wire bd pieces in
       let ref := if has_body then bd else [] in
       let sizes := cycle_sizes (S (S (length wire))) pat in
-      match h1_exchange meth m sizes wire with
+      match h1_exchange_f meth m sizes wire with
       | None => o_noresp
       | Some d =>
           negb o_noresp &&
